@@ -617,6 +617,33 @@ func TestPanicBehaviour(t *testing.T) {
 			var z zerolog.Logger // no writer at all: every event is filtered, Panic still panics
 			z.Panic().Msg("boom")
 		}, true, 0},
+		{"Panic() on the logger Ctx returns for a context without one", func() {
+			zerolog.Ctx(context.Background()).Panic().Msg("boom") // the shared disabled fallback logger
+		}, true, 0},
+		{"Panic() on the logger Ctx returns for a nil-valued key lookup (TODO context)", func() {
+			l := zerolog.Ctx(context.TODO())
+			l.Panic().Str("k", "v").Msg("boom")
+		}, true, 0},
+		{"Panic() through Ctx with DefaultContextLogger set", func() {
+			d := zerolog.New(w)
+			zerolog.DefaultContextLogger = &d
+			defer func() { zerolog.DefaultContextLogger = nil }()
+			zerolog.Ctx(context.Background()).Panic().Msg("boom")
+		}, true, 1},
+		{"Panic() through Ctx with a disabled DefaultContextLogger", func() {
+			d := zerolog.New(w).Level(zerolog.Disabled)
+			zerolog.DefaultContextLogger = &d
+			defer func() { zerolog.DefaultContextLogger = nil }()
+			zerolog.Ctx(context.Background()).Panic().Msg("boom")
+		}, true, 0},
+		{"Panic() on a disabled logger attached to a context", func() {
+			l := zerolog.New(w).Level(zerolog.Disabled)
+			zerolog.Ctx(l.WithContext(context.Background())).Panic().Msg("boom")
+		}, true, 0},
+		{"Panic() on a child of the Ctx fallback logger", func() {
+			l := zerolog.Ctx(context.Background()).With().Str("k", "v").Logger()
+			l.Panic().Msg("boom")
+		}, true, 0},
 		{"Panic() under global Disabled", func() {
 			zerolog.SetGlobalLevel(zerolog.Disabled)
 			defer zerolog.SetGlobalLevel(zerolog.TraceLevel)
@@ -679,6 +706,15 @@ func child(c string) {
 	case "fatal-discarded":
 		l := zerolog.New(os.Stdout).Hook(zerolog.HookFunc(func(e *zerolog.Event, _ zerolog.Level, _ string) { e.Discard() }))
 		l.Fatal().Msg("bye")
+	case "fatal-ctx-fallback":
+		zerolog.Ctx(context.Background()).Fatal().Msg("bye")
+	case "fatal-ctx-default-disabled":
+		d := zerolog.New(os.Stdout).Level(zerolog.Disabled)
+		zerolog.DefaultContextLogger = &d
+		zerolog.Ctx(context.Background()).Fatal().Msg("bye")
+	case "fatal-ctx-attached-disabled":
+		l := zerolog.New(os.Stdout).Level(zerolog.Disabled)
+		zerolog.Ctx(l.WithContext(context.Background())).Fatal().Msg("bye")
 	case "fatal-zero":
 		var z zerolog.Logger
 		z.Fatal().Msg("bye")
@@ -717,6 +753,9 @@ func TestFatalBehaviour(t *testing.T) {
 		{"fatal-sampled-second", 1, ""},
 		{"fatal-global", 1, ""},
 		{"fatal-zero", 1, ""},
+		{"fatal-ctx-fallback", 1, ""},
+		{"fatal-ctx-default-disabled", 1, ""},
+		{"fatal-ctx-attached-disabled", 1, ""},
 		{"fatal-discarded", 1, ""},
 		{"withlevel-fatal", 0, "SURVIVED"},
 		{"withlevel-fatal-filtered", 0, "SURVIVED"},
